@@ -66,6 +66,42 @@ class ModInfo:
         return {'id': self.id, 'name': self.name, 'extends': self.extends, 'desc': self.desc, 'rules': rules}
 
 
+class MetaModule:
+    """sourcer/parser.py as a module of a C18 universe (its inputs are grammar descriptions)."""
+    name = None
+    extends = None
+    parent = None
+    desc = None
+    builtin = 'meta'
+    binary = False
+    own = []
+    gaps = []
+    shadowed = False
+
+    def __init__(self, id, r):
+        self.id = id
+        self.chain = ('<builtin meta>',)
+        self.alphabet = list('ab=|()" \n')
+        texts = []
+        for _ in range(3):
+            s, g = spec.gen_root(r, r.random() < 0.5, n_rules=r.randint(2, 3), hook_p=0.2)
+            texts.append(spec.render_module(s, U.PREFIX + 'meta' if s['named'] else None))
+        texts.append(spec.mutate_text(r, texts[0], self.alphabet))
+        self.fixed_texts = texts
+        self.texts = texts
+        self.rules = {}
+        self.super_rules = {}
+        self.start = None
+        self.gen = None
+        self.spec = {'items': []}
+
+    def wire(self, t):
+        return t
+
+    def plan_entry(self):
+        return {'id': self.id, 'name': None, 'extends': None, 'desc': None, 'builtin': 'meta', 'rules': []}
+
+
 _DOTTED = [False]
 
 
@@ -109,6 +145,10 @@ def gen_universe(r):
         named = r.random() < 0.5
         s, g = spec.gen_root(r, named, n_rules=r.randint(2, 5))
         infos.append(ModInfo(i, mod_name(i) if named else None, None, s, g))
+    if r.random() < 0.08 and len(infos) < 4:
+        # the shipped meta-parser (sourcer/parser.py) as one more module: clients parse grammar
+        # descriptions with it directly while other clients construct grammars (which use it too)
+        infos.append(MetaModule(len(infos), r))
     # drop modules whose chain does not compile (both sides of the oracle would agree on the
     # failure and the run would explore nothing)
     good = []
@@ -116,6 +156,9 @@ def gen_universe(r):
     for m in infos:
         if m.extends in bad:
             bad.add(m.id)
+            continue
+        if getattr(m, 'builtin', None):
+            good.append(m)
             continue
         codes = U.chain_codes(m.chain)
         if isinstance(codes, tuple):
@@ -145,6 +188,8 @@ def warm_hot_lines(infos):
     """In the group process: the shared-state lines of the universe's generated code (cached per code
     object and inherited by the forked run children)."""
     for m in infos:
+        if getattr(m, 'builtin', None):
+            continue
         try:
             with U.isolated_registry():
                 for mod in U.build_chain_fast(m.chain):
@@ -230,6 +275,11 @@ class Planner:
     def gen_parse(self, mid, kinds, depth=0):
         wr, fr = self.wr, self.fr
         m = self.infos[mid]
+        if getattr(m, 'builtin', None):
+            op = {'op': 'parse', 'mod': mid, 'entry': 'parse', 'text': wr.choice(m.texts), 'pos': 0, 'full': True,
+                  'budget': U.HARD_CAP}
+            op['_steps'] = self.ref(op)['steps']
+            return op
         text = wr.choice(m.texts)
         entry = 'parse'
         if m.own and wr.random() < 0.3:
@@ -379,6 +429,8 @@ class Planner:
         for m in infos:
             self.infos[m.id] = m
             self.chains[m.id] = m.chain
+            if getattr(m, 'builtin', None):
+                continue
             m.texts = make_texts(self.tr, m)
         baseline = fr.random() < 0.08
         if baseline:
@@ -455,6 +507,8 @@ class Planner:
             m = self.infos[mid]
             for t in m.texts[:2]:
                 probes.append({'op': 'parse', 'mod': mid, 'entry': 'parse', 'text': m.wire(t), 'pos': 0, 'full': True})
+                if getattr(m, 'builtin', None):
+                    probes[-1]['budget'] = U.HARD_CAP
             if m.own:
                 # ... and once through the entry point of one of its own rules or classes
                 it = m.own[wr.randrange(len(m.own))]
